@@ -1325,8 +1325,8 @@ func (m *NetworkMachine) DetachTracer(id string) error {
 
 // Tracers is [am.Api.Tracers].
 func (m *NetworkMachine) Tracers() []am.Tracer {
-	m.clockMx.Lock()
-	defer m.clockMx.Unlock()
+	m.tracersMx.RLock()
+	defer m.tracersMx.RUnlock()
 
 	return slices.Clone(m.tracers)
 }
